@@ -119,6 +119,10 @@ func (c *Connection) sendMessage(ctx context.Context, msg *Message) error {
 	}
 	select {
 	case c.outgoing <- prepared:
+	case <-c.writeLoopDone:
+		// the write loop is gone, so nothing will ever drain the outgoing queue again. without this
+		// case a sender facing a full queue would block forever
+		return errors.New("connection closed")
 	case <-ctx.Done():
 		return ctx.Err()
 	}
